@@ -25,10 +25,12 @@ vars == <<n, interval, boh, eoh, acc, emitted>>
 InRange(f, gte, lt) == (gte = 0 \/ f.t >= gte) /\ (lt = 0 \/ f.t < lt)
 \* what a query over [gte, lt) must report for key k: the sums, or nothing when no accepted flow matches
 Matching(a, k, gte, lt) == { i \in DOMAIN a : a[i].key = k /\ InRange(a[i], gte, lt) }
-RECURSIVE SumIdx(_, _, _)
-SumIdx(a, S, fld) == IF S = {} THEN 0 ELSE LET i == CHOOSE x \in S : TRUE IN a[i][fld] + SumIdx(a, S \ {i}, fld)
-SumsOf(a, k, gte, lt) == [fld \in Fields |-> SumIdx(a, Matching(a, k, gte, lt), fld)]
-KeysInOf(a, gte, lt) == { k \in Keys : Matching(a, k, gte, lt) # {} }
+RECURSIVE SumFrom(_, _, _, _, _, _)
+SumFrom(a, i, k, gte, lt, fld) ==
+    IF i > Len(a) THEN 0
+    ELSE (IF a[i].key = k /\ InRange(a[i], gte, lt) THEN a[i][fld] ELSE 0) + SumFrom(a, i + 1, k, gte, lt, fld)
+SumsOf(a, k, gte, lt) == [fld \in Fields |-> SumFrom(a, 1, k, gte, lt, fld)]
+KeysInOf(a, gte, lt) == { k \in Keys : \E i \in DOMAIN a : a[i].key = k /\ InRange(a[i], gte, lt) }
 Sums(k, gte, lt) == SumsOf(acc, k, gte, lt)
 KeysIn(gte, lt) == KeysInOf(acc, gte, lt)
 
